@@ -74,14 +74,14 @@ PROPS['C16'] = {
 
 PROPS['C01'] = {
     'title': 'Committed values read back exactly, for every column type and offset',
-    'modules': ['ColumnVerif.Props.C01', 'ColumnVerif.Props.C01str'],
+    'modules': ['ColumnVerif.Props.C01', 'ColumnVerif.Props.C01str', 'ColumnVerif.Props.C01store'],
     'runs': [{'mode': 'store'}],
     'trusted_base': STORE_TB,
     'assumptions': [
-        "theorems are per chunk pass (applyData over the chunk's ops in issue order, which C05 proves is what Range yields); the composition over buffers/chunks inside commit is exercised by the correspondence",
+        "store-level read-back through the real Store.commit (any number of dirty chunks, any sequence of commits) is proved for numeric columns under the stated invariants (ColWF, Covered, distinct buffer names, no computed column named like the column); for string/record/enum/key columns the theorems are per chunk pass and the composition inside commit is exercised by the correspondence",
         "guards = recorded findings: D10 (write+delete of one row), D11 (merge onto a slot occupied before), D12 (op after a resizing merge), D20 (enum hash collision); strings ≤ 65535 bytes",
     ],
-    'level_text': "Lean theorems over the executable column model: for numeric, string, record and enum columns, after the chunk's pass every slot is the fold, in issue order, of the operations addressed to it (any merge function, any number of ops, offsets in any order); untouched offsets keep their content; the last Put decides; typed readers return the slot iff present; big-endian numeric bytes are bit-exact; missing chunk = panic (why D6 had to be repaired); counterexamples for D11/D12/D20. Tied to the code by differential histories over all 16 column kinds, boundary values, several chunks, late columns, all capacities, with a Go-side reference interpreter as implementation-only oracle.",
+    'level_text': "Lean theorems over the executable store model: commit_readback — after Store.commit (any number of dirty chunks; and after any sequence of commits) every slot of a numeric column is the fold, in issue order, of the transaction's row markers and of the operations it issued for that column and offset, over the previous content; untouched offsets and columns are unchanged; the fill bit is the fold of the markers; no panic under the cover invariant (which CreateColumn's repair and commitCapacity maintain). Column level: for numeric, string, record and enum columns, after the chunk's pass every slot is the fold, in issue order, of the operations addressed to it (any merge function, any number of ops, offsets in any order); untouched offsets keep their content; the last Put decides; typed readers return the slot iff present; big-endian numeric bytes are bit-exact; missing chunk = panic (why D6 had to be repaired); counterexamples for D11/D12/D20. Tied to the code by differential histories over all 16 column kinds, boundary values, several chunks, late columns, all capacities, with a Go-side reference interpreter as implementation-only oracle.",
     'technique': 'Lean 4 proof (fold semantics of the apply pass by induction over op lists) + model/implementation correspondence',
     'design_ref': '§6 C01',
 }
@@ -250,6 +250,54 @@ PROPS['C14'] = {
     'level_text': "Lean theorems over the Snapshot resource machine (recorder slot, descriptors, temp files), for every fault combination and every history of calls: an error is returned exactly when something failed; afterwards the recorder is released and no descriptor or temp file is left; a concurrent second snapshot is refused without leak; a later healthy snapshot succeeds; counterexample for the code before the repair (D5). The clean-up actions (defers right after the open, clean-up on CAS failure, close before copy) are read from the regenerated skeleton. Tied to the code by injecting a failure at every write call and byte budget (once / forever) on empty, one-chunk and three-chunk collections, comparing the observed (recorder, fd delta, temp delta, error) with the model, and checking that commits and a healthy snapshot + restore still work.",
     'technique': 'Lean 4 proof (case analysis over fault combinations, induction over call histories) + regenerated protocol skeleton + fault-injection correspondence',
     'design_ref': '§6 C14',
+}
+
+PROPS['C08'] = {
+    'title': 'A snapshot taken under concurrent commits restores to a consistent cut',
+    'modules': ['ColumnVerif.Props.C08', 'ColumnVerif.Props.C08skel'],
+    'runs': [{'mode': 'sched'}],
+    'skeleton': True,
+    'trusted_base': CONC_TB,
+    'assumptions': [
+        "a chunk's content is abstracted to the list of commit ids applied to it; that a commit's emitted section is absolute (replaying it is state-independent) is C06's theorem",
+        "partial on in-flight reservations: an insert reserved but not yet committed shows up as an empty row in the chunk's insert markers (finding D17)",
+        "the chunk read happens under the chunk's read latch and the collection lock, the recorder pointer is looked at inside the latch section, Append/Copy share the log mutex, Restore filters by id: flag theorems over the regenerated skeleton",
+    ],
+    'level_text': "Lean theorems over the small-step snapshot machine (any number of writers, chunks, steps; every schedule; pointer load and log append are separate steps that close/copy may split): once the log is copied, for every chunk read the restored content is a suffix of the chunk's content at copy time and of its final content (= the primary's block after a prefix of the commits applied to it, in apply order: nothing lost from the middle, nothing out of order, nothing that was not committed when Snapshot returned), it contains every commit whose latch section had finished when the call began, and it is strictly ordered (no commit twice); the recorded set is prefix-closed per chunk at every point. Tied to the code by the regenerated skeleton and by controlled schedules of a snapshot against 2–3 writers over 1–2 chunks with yield points after open, before each chunk read, before close and before copy, checked by a per-chunk prefix oracle on the restored collection.",
+    'technique': 'Lean 4 proof (invariant over all reachable worlds of the snapshot machine) + regenerated protocol skeleton + controlled scheduling',
+    'design_ref': '§6 C08',
+}
+
+PROPS['C17'] = {
+    'title': 'Rows expire only after their deadline, and then do expire',
+    'modules': ['ColumnVerif.Props.C17', 'ColumnVerif.Props.C17skel'],
+    'runs': [{'mode': 'ttl'}],
+    'skeleton': True,
+    'trusted_base': TB_COMMON + [SKEL_TB, "runtime, not modelled: the ticker, the wall clock, goroutine scheduling"],
+    'assumptions': [
+        "PARTIAL: 'within a few cleanup intervals' depends on Go timers and scheduling, which no model here exhibits; it is observed with margins by the ttl mode",
+        "Extend on a row without a deadline (observation O1) is outside the property; recorded as a counterexample theorem",
+    ],
+    'level_text': "PARTIAL. Lean theorems over the executable model: a vacuum pass (With(expire) + ExpiresAt + now.After) deletes a row iff it is live, holds a deadline value, the deadline is non-zero and strictly before now — for every store, clock reading and offset (via C04's filter theorems); hence rows without TTL / with a future deadline are never removed and a passed deadline is removed by the next pass; TTL arithmetic (positive TTL = now + ttl, non-positive = never; Extend adds). The decision's shape in the source (ExpiresAt, now.After, `ok && expireAt != 0`, `ttl > 0`) is read from the regenerated skeleton. Tied to the code by running the real vacuum goroutine at 1–100 ms intervals over rows with all deadline kinds under concurrent updates, inserts and deletes, with generous margins, comparing every judged observation with the model's decision.",
+    'technique': 'Lean 4 proof (decision logic stated outright) + regenerated protocol skeleton + timed observation of the real goroutine',
+    'design_ref': '§6 C17',
+}
+
+PROPS['C07'] = {
+    'title': 'Restore of a snapshot reproduces the collection exactly',
+    'modules': ['ColumnVerif.Props.C07', 'ColumnVerif.Props.C07skel'],
+    'runs': [{'mode': 'store'}],
+    'skeleton': True,
+    'trusted_base': STORE_TB + [SKEL_TB],
+    'assumptions': [
+        "store-level theorem (readState ∘ snapshot through the real Store.commit) is for numeric columns and the fill list; string/record/key/bool columns are proved at column level (restoring a chunk's snapshot buffer into a fresh column reproduces every read of that chunk); enum columns, the key lookup table, index/sorted-index contents after restore and the log tail replay are exercised by the correspondence (indexes: C03's pass lemma applies)",
+        "numeric slots are canonical (a present slot holds width bytes): a present empty slot is written zero-padded by the snapshot",
+        "'behaves like the original afterwards' (new inserts never overwrite restored rows) follows from the restored fill list being equal bit for bit + C11; it is also checked by continuing the same history on both collections in the correspondence",
+        "byte level of the state stream: C05/C13 wire theorems",
+    ],
+    'level_text': "Lean theorems over the executable snapshot model: the state a snapshot writes for a chunk (one insert marker per occupied offset, one Put per present value) applied to a fresh column / fill list reproduces every read and every fill bit of that chunk (numeric, string, record, key, bool; other chunks untouched; no panic); readState of a snapshot is a fold of per-chunk commits, and through the real Store.commit every committed offset of a numeric column reads the same in the restored store and the fill lists agree (identical rows at identical offsets). Tied to the code by differential snapshot→restore→continue cycles over all column kinds incl. enum, bool, record, key, expire, sparse and dense chunks, differing capacities, with a Go-side dump-equality oracle.",
+    'technique': 'Lean 4 proof (snapshot buffer round trip at column level; fold of chunk commits at store level) + model/implementation correspondence',
+    'design_ref': '§6 C07',
 }
 
 ALL_IDS = ['C%02d' % i for i in range(1, 20)]
